@@ -323,7 +323,11 @@ def targeted(rng, bases, per_base_limit):
                 for sw in swaps:
                     combos.append((path, st["file"], ext, k, sw))
         rng.shuffle(combos)
-        for path, fname, ext, k, sw in combos[:per_base_limit]:
+        # class-only renames (the member left alone) are few and are the ones that hand well-formed data to a parser that was
+        # not made for it: all of them (up to a cap), then a sample of the member corruptions
+        class_only = [c for c in combos if c[3] is None and c[4]]
+        others = [c for c in combos if not (c[3] is None and c[4])]
+        for path, fname, ext, k, sw in class_only[:max(400, per_base_limit)] + others[:per_base_limit]:
             s2 = copy.deepcopy(schema)
             m2 = dict(members)
             if k is None and not sw:
